@@ -29,14 +29,14 @@ MAP = {
     "C19_m1": [("C19", "fileio.ownership")], "C19_m2": [("C19", None)],
     "C20_m1": [("C20", "adpcm.ms.ch1")], "C20_m2": [("C20", "adpcm.ima_wav.ch1.b8")],
     "C01_m3": [("C01", "alac.stage.write.short.ch2")], "C01_m4": [("C02", None), ("C01", "sg.double")],
-    "C03_m3": [("C03", None)], "C03_m4": [("C17", "cmd.SFC_GET_CUE"), ("C03", "cmd.SFC_GET_CUE")],
-    "C04_m3": [("C04", "alac")], "C04_m4": [("C04", "rt.wavex")],
+    "C03_m3": [("C03", "readf.j")], "C03_m4": [("C17", "cmd.SFC_GET_CUE"), ("C03", "cmd.SFC_GET_CUE")],
+    "C04_m3": [("C04", "alac.stage.pakt")], "C04_m4": [("C04", "rt.wavex")],
     "C05_m3": [("C05", "alac.stage.read.double.ch2")], "C05_m4": [("C05", "blk.ms")],
     "C06_m3": [("C06", "alac.stage.seek")], "C06_m4": [("C06", "paf")],
     "C07_m3": [("C07", "alac.stage.write.float.ch2.p3")], "C07_m4": [("C07", "dpcm8")],
     "C11_m3": [("C11", "rt.upd.w64")], "C11_m4": [("C11", "rt.upd.au.pcm16.ch1.n1,rt.upd.aiff.pcm16.ch1.n1")],
     "C12_m3": [("C12", None)], "C12_m4": [("C12", None)],
-    "C15_m3": [("C15", None)], "C15_m4": [("C15", "gsm")],
+    "C15_m3": [("C15", "readf.j")], "C15_m4": [("C15", "gsm")],
     "C16_m3": [("C16", None)], "C16_m4": [("C16", None)],
     "R_g711_intmin": [("C20", "g711.H_ENCODE_I")], "R_d2sc_clip": [("C02", "sc.WR_D.norm1.clip1")], "R_cmdstr0": [("C17", "cmd.SFC_GET_LIB_VERSION")],
     "R_embedshort": [("C14", "embed_open.au.k4,embed_open.au.k1.")], "R_peak_double": [("C18", "peak.double64.double.ch1")], "R_sds_close": [("C01", "blk.sds16.flush.k10")],
